@@ -162,7 +162,7 @@ def worker(seed, widx, nworkers, plan, scratch):
                 raise HarnessError(f"non-deterministic C11 run {i}: {res['digest']} / {res2['digest']} / replay {res3['digest']}")
         v = res["violation"]
         if v is not None:
-            hang = "kept the CPU" in v["message"]
+            hang = "CPU time" in v["message"]
             m = minimise(spec, cfg, res["latencies"], v["class"], scratch, budget=12 if hang else 70)
             if m is None:
                 raise HarnessError(f"C11 violation of run {i} does not replay: {v}")
